@@ -74,6 +74,19 @@ pub fn dispatch(op: &str, backend: &str, args: &Value) -> Value {
 
 const TRAIT_FORMS: [&str; 7] = ["strict.source", "strict.target", "strict.identity", "strict.spider", "lax.identity", "lax.spider", "lax.tensor"];
 
+const DERIVED: [(&str, &str); 10] = [
+    ("ff.source", "ff.clone"),
+    ("sf.len", "sf.clone"),
+    ("sf.coproduct", "sf.eq"),
+    ("ic.len_ff", "ic.clone_ff"),
+    ("ic.map_indexes_sf", "ic.clone_sf"),
+    ("ic.coproduct_ff", "ic.eq_ff"),
+    ("ic.coproduct_sf", "ic.eq_sf"),
+    ("hyper.is_discrete", "hyper.clone"),
+    ("strict.source", "strict.clone"),
+    ("arrow.is_monomorphism", "arrow.clone"),
+];
+
 fn cmd_exec() {
     let stdin = std::io::stdin();
     let stdout = std::io::stdout();
@@ -104,12 +117,21 @@ fn cmd_exec() {
         out.write_all(b"\n").unwrap();
         // operations that exist both as an inherent method and as a method of a categorical trait:
         // the same case is also performed through the trait (judged by the same relation)
-        if TRAIT_FORMS.contains(&op.as_str()) && !ev["args"].get("pre").is_some() {
+        if TRAIT_FORMS.contains(&op.as_str()) && ev["args"].get("pre").is_none() {
             let top = format!("{}_trait", op);
             ev["obs"] = dispatch(&top, &backend, &ev["args"]);
             ev["op"] = json!(top);
             serde_json::to_writer(&mut out, &ev).unwrap();
             out.write_all(b"\n").unwrap();
+        }
+        // hand-written Clone / PartialEq impls, performed on the arguments of a case that carries them
+        for (base, derived) in DERIVED.iter() {
+            if *base == op {
+                ev["obs"] = dispatch(derived, &backend, &ev["args"]);
+                ev["op"] = json!(derived);
+                serde_json::to_writer(&mut out, &ev).unwrap();
+                out.write_all(b"\n").unwrap();
+            }
         }
     }
     out.flush().unwrap();
